@@ -398,7 +398,7 @@ def main():
         if os.path.exists(corpus):
             cases += json.load(open(corpus))
         cases.append(pcase)
-        for k in range(run.n(420, 40000)):
+        for k in range(run.n(340, 8000)):
             cases.append(gen_case(run.rng, k))
     step = 2000
     for s0 in range(0, len(cases), step):
